@@ -117,7 +117,7 @@ def run(model, tier="quick"):
 
 
 MANIFEST = {
-    "technique": "guarded-decrement analysis over canonical effect paths (every holding decrement bounded by the holding on every path) plus ledger identity of the wallet primitives",
+    "technique": "guarded-decrement analysis over canonical effect paths (every holding decrement bounded by the holding on every path), ledger identity of the wallet primitives, rollback-exactness of compensation handlers",
     "claim": "Every store that reduces a holding in the markets, the broker or an asset is, on every path, bounded by that "
              "holding (guard on the surviving arm, clamp, or clamp-to-zero helper), so no holding can become negative and no "
              "more than what is held can be taken; the wallet primitives and broker swaps equal their reference ledgers. "
